@@ -713,6 +713,10 @@ fn apply_sack_to_sent_queue(
 impl<'a> Drop for SctpCleanupGuard<'a> {
     fn drop(&mut self) {
         *self.inner.state.lock() = SctpState::Closed;
+        // Whatever ended the association (remote ABORT / SHUTDOWN, DTLS closed,
+        // heartbeat or INIT timeout, local close): senders parked in
+        // send_data_raw()'s flow-control loop must get to see the Closed state.
+        self.inner.flow_control_notify.notify_waiters();
 
         let channels = self.inner.data_channels.lock();
         for weak_dc in channels.iter() {
@@ -3239,6 +3243,11 @@ impl SctpInner {
         let flags_base = if !ordered { 0x04 } else { 0x00 };
 
         loop {
+            // Register for the wake-up *before* looking at the state: a
+            // `Notified` future receives `notify_waiters()` from the moment it
+            // is created, so a close that lands between the check below and
+            // the await can no longer be missed.
+            let notified = self.flow_control_notify.notified();
             // Bail out if the association has been closed while we were waiting
             // for window credit, otherwise this task (and the Arc<SctpInner> /
             // DataChannel it captures) would live forever.
@@ -3250,7 +3259,7 @@ impl SctpInner {
             if self.max_buffered_amount == 0 || flight + queued <= self.max_buffered_amount {
                 break;
             }
-            self.flow_control_notify.notified().await;
+            notified.await;
         }
 
         self.queued_bytes.fetch_add(total_len, Ordering::Relaxed);
